@@ -58,6 +58,10 @@ type result struct {
 // write, waiting until the reader drained the pipe), closes the writer and
 // waits for Ingest to return. failAt: the k-th callback (1-based) fails.
 func feed(path string, delim byte, chunks []string, failAt int) result {
+	return feedPaused(path, delim, chunks, failAt, 0)
+}
+
+func feedPaused(path string, delim byte, chunks []string, failAt int, pause time.Duration) result {
 	_ = os.Remove(path)
 	if err := syscall.Mkfifo(path, 0o600); err != nil {
 		panic(err)
@@ -84,9 +88,12 @@ func feed(path string, delim byte, chunks []string, failAt int) result {
 	}
 	fd := w
 	stopped := false
-	for _, c := range chunks {
+	for ci, c := range chunks {
 		if stopped {
 			break
+		}
+		if pause > 0 && ci > 0 {
+			time.Sleep(pause)
 		}
 		if _, err := fd.Write([]byte(c)); err != nil {
 			break // reader went away (injected failure)
@@ -183,6 +190,7 @@ type job struct {
 	delim  byte
 	failAt int
 	class  string
+	pause  time.Duration // sleep between the writes (a writer that stalls mid-record)
 }
 
 func (j job) parts() []string {
@@ -235,7 +243,7 @@ func runC12(run *mc.Run) int {
 					continue // the ingester no longer returns at end-of-stream: already reported
 				}
 				parts := j.parts()
-				r := feed(path, j.delim, parts, j.failAt)
+				r := feedPaused(path, j.delim, parts, j.failAt, j.pause)
 				if r.hung {
 					atomic.AddInt64(&hangs, 1)
 				}
@@ -308,13 +316,23 @@ func runC12(run *mc.Run) int {
 			}
 		}
 	}
+	// (3b) a writer that stalls between its writes (longer than any polling / deadline interval one would use)
+	pauses := []time.Duration{300 * time.Millisecond}
+	if run.Thorough() {
+		pauses = append(pauses, 1500*time.Millisecond, 5*time.Second)
+	}
+	for _, pz := range pauses {
+		for _, cs := range [][]string{{"first rec", "ord\nsecond\n"}, {"a\nb", "\n", "c\n"}, {"only-newline-late", "\n"}, {"x\n", "y\n"}} {
+			emit(job{stream: strings.Join(cs, ""), chunks: cs, delim: '\n', class: "paused-writer", pause: pz})
+		}
+	}
 	// (4) empty stream / only a tail
 	emit(job{stream: "", chunks: []string{}, delim: '\n', class: "edge"})
 	emit(job{stream: "tail-only", chunks: []string{"tail", "-only"}, delim: '\n', class: "edge"})
 	close(jobs)
 	wg.Wait()
 	cov := mc.Coverage{Level: "exploration", Evaluations: int(evals), Distinct: int(multi), Exhaustive: complete && skipped == 0, Samples: samples,
-		Rule:  fmt.Sprintf("the real NamedPipeIngester.Ingest on real FIFOs: every byte stream over {a,b,delimiter} of length <=%d x every one of the 2^(len-1) partitions into write(2) calls (FIONREAD handshake: each write is drained before the next), delimiters \\n and NUL; records of 4095..70000 bytes x chunk sizes {1,2,4095,4096,4097,whole}; a callback error at each record index; unterminated tails and the empty stream. Oracle (partition-independent): callback arguments = the delimiter-terminated records in order (one trailing delimiter allowed), nothing after the last delimiter, callback error returned unchanged, end-of-stream returned as an error. distinct_nontrivial = runs whose stream was split over >=2 writes", n),
+		Rule:  fmt.Sprintf("the real NamedPipeIngester.Ingest on real FIFOs: every byte stream over {a,b,delimiter} of length <=%d x every one of the 2^(len-1) partitions into write(2) calls (FIONREAD handshake: each write is drained before the next), delimiters \\n and NUL; records of 4095..70000 bytes x chunk sizes {1,2,4095,4096,4097,whole}; a callback error at each record index; writers that pause 0.3 s (thorough: 1.5 s, 5 s) between their writes, mid-record; unterminated tails and the empty stream. Oracle (partition-independent): callback arguments = the delimiter-terminated records in order (one trailing delimiter allowed), nothing after the last delimiter, callback error returned unchanged, end-of-stream returned as an error. distinct_nontrivial = runs whose stream was split over >=2 writes", n),
 		Extra: map[string]any{"runs_per_class": classes, "max_stream_len": n}}
 	cov.Assumptions = []string{"kernel FIFO semantics; a write larger than the pipe buffer may be split by the kernel (affects only which partition was exercised, not the verdict)"}
 	return run.Finish(cov)
